@@ -10,5 +10,6 @@ CONSTANTS
   MaxRO0 = 1
 INIT Init
 NEXT Next
+VIEW View
 INVARIANTS TypeOK LookbackSuperset
 CHECK_DEADLOCK FALSE
